@@ -1,6 +1,8 @@
 #!/bin/bash
-# usage: seedtest.sh <patch> <prop> [tier]  -- apply a seeded change to /repo, run one check, undo
+# usage: seedtest.sh <patch> <prop> [tier]  -- apply a seeded change to /repo, run one check, undo (evidence file restored)
 cd /repo && git apply "$1" || exit 3
-cd /verif && ./check "$2" --tier "${3:-quick}" 2>&1 | tail -3 | cut -c1-260
+cd /verif && cp evidence/$2.json /tmp/.evidence_$2.json 2>/dev/null
+./check "$2" --tier "${3:-quick}" 2>&1 | tail -3 | cut -c1-260
 git -C /repo checkout -- .
+cp /tmp/.evidence_$2.json evidence/$2.json 2>/dev/null; rm -f /tmp/.evidence_$2.json
 cd /verif && /venv/bin/python -m harness.extract >/dev/null 2>&1
